@@ -35,6 +35,7 @@ every bank class that takes a scaling function, at the rates of both other parts
 A *valid* configuration whose constructor raises is counted (obs "unconstructible:<text>",
 trivial point), not reported: the property speaks about the filters of a bank that exists.
 """
+import contextlib
 import copy
 import functools
 import json
@@ -70,6 +71,12 @@ ASSUMPTIONS = [
     "same class in the same process (agreement to 1e-12, the tolerance of `triangle`; 'unchanged since "
     "it was returned' is bit-exact); state shared between objects (class / module level) is not "
     "explored by it",
+    "threshold axis: pydrobert.speech.config.EFFECTIVE_SUPPORT_THRESHOLD is set (default, 1e-4, 2e-3) before "
+    "the bank is constructed and restored afterwards; 'eps' in every tolerance is the value in force. Values "
+    "other than these three are not explored",
+    "response_grid measures get_frequency_response at one DFT width per (filter, parity, measured frequency) "
+    "in [96, 256]; between a frequency and its nearest bin the documented response is bounded by its "
+    "documented shape (Gaussian / gammatone), see _grid",
     "no signal data is involved: pass/fail cannot depend on VERIF_SEED",
 ]
 
@@ -96,6 +103,113 @@ def eps():
     from pydrobert.speech import config
 
     return float(config.EFFECTIVE_SUPPORT_THRESHOLD)
+
+
+# ---------------------------------------------------------------- the threshold in force (shared with C06, C07)
+#
+# pydrobert.speech.config.EFFECTIVE_SUPPORT_THRESHOLD is a documented, adjustable package constant.  A bank
+# configuration of the lattices may carry the key "threshold": the constant is then set to that value BEFORE
+# the bank is constructed and stays in force while the case is evaluated (every oracle takes its tolerance
+# from eps(), i.e. from the live value); it is restored afterwards, and every chunk of points runs in a
+# forked process of its own.
+
+DOC_THRESHOLD = 5e-4                 # the documented default (config.py); only used to name the direction
+THRESHOLDS = (1e-4, 2e-3)            # besides the default: lowered and raised
+
+
+@contextlib.contextmanager
+def threshold_in_force(value):
+    from pydrobert.speech import config
+
+    old = config.EFFECTIVE_SUPPORT_THRESHOLD
+    if value is not None:
+        config.EFFECTIVE_SUPPORT_THRESHOLD = float(value)
+    try:
+        yield
+    finally:
+        config.EFFECTIVE_SUPPORT_THRESHOLD = old
+
+
+def with_threshold(fn):
+    """fn(b, ...) runs with b["threshold"] (if any) in force"""
+    @functools.wraps(fn)
+    def wrapped(b, *a, **k):
+        with threshold_in_force(b.get("threshold") if isinstance(b, dict) else None):
+            return fn(b, *a, **k)
+    return wrapped
+
+
+def thresholded(banks, thresholds=THRESHOLDS):
+    return [dict(b, threshold=t) for t in thresholds for b in banks]
+
+
+def threshold_tag(t):
+    return "lowered" if t < DOC_THRESHOLD else "raised" if t > DOC_THRESHOLD else "default"
+
+
+# the constant is changed between two reads on ONE bank object: (value in force when the bank is built and its
+# supports are read for the first time, value in force when the property is checked); None = the default
+THRESHOLD_TRANSITIONS = ((None, 1e-4), (None, 2e-3), (1e-4, None), (2e-3, None))
+
+
+def threshold_history_run(b, t0, t1, judge):
+    """t0 in force: build the bank and read every read-only property once (supports, supports_hz, centres:
+    whatever is memoised is memoised now); then t1 in force: judge(bank, eps_before, eps_now).
+    -> (what judge returns, demanded) or None if the constructor raised.
+
+    demanded: the triangular / Fbank filters are exactly compactly supported in frequency; their temporal
+    `supports` is the only quantity that depends on the threshold, and the property relates it to the
+    threshold (the configured one): checked in both directions.  A Gabor / gammatone bank's responses are
+    themselves truncated at supports computed for the threshold it was built under, so lowering the constant
+    afterwards is left open (counted as skipped); after RAISING it every bound of the property is implied by
+    the bound that held when the bank was built, whatever the implementation reads when."""
+    from pydrobert.speech import config
+
+    default = config.EFFECTIVE_SUPPORT_THRESHOLD
+    try:
+        config.EFFECTIVE_SUPPORT_THRESHOLD = default if t0 is None else float(t0)
+        e0 = eps()
+        r = build(b)
+        if r[0] != "ok":
+            return None
+        bank = r[1]
+        _props(bank)
+        config.EFFECTIVE_SUPPORT_THRESHOLD = default if t1 is None else float(t1)
+        e1 = eps()
+        demanded = b["name"] in ("tri", "fbank") or e1 >= e0
+        return judge(bank, e0, e1), demanded
+    finally:
+        config.EFFECTIVE_SUPPORT_THRESHOLD = default
+
+
+@quiet
+def threshold_history_point(pt, judge):
+    """pt = dict(bank=, t0=, t1=); judge(bank, b, e1) -> (list of (what, extra_tags, detail, filt, width), evals)"""
+    b, t0, t1 = pt["bank"], pt["t0"], pt["t1"]
+    got = threshold_history_run(b, t0, t1, lambda bank, e0, e1: (judge(bank, b, e1), e0, e1))
+    if got is None:
+        return core.result([], nontrivial=False, obs="unconstructible", evals=1, nontrivial_count=0)
+    ((found, evals), e0, e1), demanded = got
+    direction = "lowered" if e1 < e0 else "raised"
+    if not demanded:
+        return core.result([], nontrivial=False, obs=("left_open", b["name"], direction), evals=evals,
+                           nontrivial_count=0, skipped=evals)
+    viol, seen = [], set()
+    for what, extra, detail, i, w in found:
+        key = (what,) + tuple(sorted(extra.items()))
+        if key not in seen:
+            viol.append(core.violation(
+                dict(bank_tags(b), what=what, threshold_history=direction, **extra),
+                "bank built and its supports read with EFFECTIVE_SUPPORT_THRESHOLD = %g, then the constant set to %g "
+                "and the same object checked against %g: %s" % (e0, e1, e1, detail),
+                dict(bank=b, t0=t0, t1=t1, filt=i, width=w)))
+        seen.add(key)
+    return core.result(viol, evals=evals, nontrivial_count=evals, obs=(b["name"], direction, sorted(map(str, seen))),
+                       sample=dict(bank=b, threshold_before=e0, threshold_now=e1))
+
+
+def threshold_history_points(banks):
+    return [dict(bank=b, t0=t0, t1=t1) for b in banks for t0, t1 in THRESHOLD_TRANSITIONS]
 
 
 # ---------------------------------------------------------------- the bank lattice (shared with C06, C07)
@@ -257,11 +371,17 @@ def bank_tags(b):
     if b["name"] == "gammatone":
         t["order"] = int(b.get("order", 4))
         t["max_centered"] = bool(b.get("max_centered", False))
+    if b.get("threshold") is not None:
+        t["threshold"] = threshold_tag(b["threshold"])
     return t
 
 
 def build(b):
     """-> ("ok", bank) | ("exc", type, text); the configuration is valid by construction"""
+    if b.get("threshold") is not None:
+        if eps() != float(b["threshold"]):
+            raise core.HarnessError("bank %r is built while the threshold in force is %r" % (b, eps()))
+        b = {k: v for k, v in b.items() if k != "threshold"}
     return computers.call(cfg.make_bank, b)
 
 
@@ -333,6 +453,7 @@ def documented_span(b, lay, i):
 
 
 @quiet
+@with_threshold
 def _constructible(b):
     """valid configuration => a bank; a raising constructor is counted (trivial point, the
     exception text goes to the evidence samples), it is not a violation of C05"""
@@ -347,6 +468,7 @@ def _constructible(b):
 
 
 @quiet
+@with_threshold
 def _layout(b, bank=None):
     if bank is None:
         r = build(b)
@@ -398,6 +520,7 @@ def _layout(b, bank=None):
 
 
 @quiet
+@with_threshold
 def _triangle(b):
     r = build(b)
     if r[0] != "ok":
@@ -413,43 +536,47 @@ def _triangle(b):
     for i in range(bank.num_filts):
         left, right = sup[i]
         mid = cen[i]
-        for w in TRI_WIDTHS:
+        for w, half in [(w, h) for w in TRI_WIDTHS for h in (False, True)]:
             evals += 1
-            rr = computers.call(bank.get_frequency_response, i, w)
-            case = dict(bank=b, filt=i, width=w)
+            rr = computers.call(bank.get_frequency_response, i, w, half)
+            case = dict(bank=b, filt=i, width=w, half=half)
+            htag = dict(half=True) if half else {}
+            nbins = w // 2 + 1 if half else w
             if rr[0] != "ok":
-                if "exception" not in seen:
-                    viol.append(core.violation(dict(tags, what="triangle_exception", exc=rr[1]),
-                                               "get_frequency_response(%d, %d) raised %s: %s" % (
-                                                   i, w, rr[1], rr[2]), case))
-                seen.add("exception")
+                if ("exception", half) not in seen:
+                    viol.append(core.violation(dict(tags, what="triangle_exception", exc=rr[1], **htag),
+                                               "get_frequency_response(%d, %d, half=%r) raised %s: %s" % (
+                                                   i, w, half, rr[1], rr[2]), case))
+                seen.add(("exception", half))
                 continue
             got = np.asarray(rr[1])
-            if got.shape != (w,):
-                viol.append(core.violation(dict(tags, what="triangle_shape"),
-                                           "shape %r for width %d" % (got.shape, w), case))
+            if got.shape != (nbins,):
+                if ("shape", half) not in seen:
+                    viol.append(core.violation(dict(tags, what="triangle_shape", **htag),
+                                               "shape %r for width %d, half=%r" % (got.shape, w, half), case))
+                seen.add(("shape", half))
                 continue
             if b["name"] == "tri":
-                want = ref.tri_response(w, rate, left, mid, right, analytic)
+                want = ref.tri_response(w, rate, left, mid, right, analytic)[:nbins]
                 obs = got.real if np.iscomplexobj(got) else got
             else:
-                want = ref.fbank_response_sq(w, rate, left, mid, right, analytic)
+                want = ref.fbank_response_sq(w, rate, left, mid, right, analytic)[:nbins]
                 obs = np.abs(got) ** 2
             ok = np.all(np.isfinite(got)) and np.all(np.abs(obs - want) <= 1e-12) and \
                 (not np.iscomplexobj(got) or np.all(got.imag == 0)) and np.all(got.real >= 0)
             if np.any(want > 0):
                 nontriv += 1
             if not ok:
-                if "triangle" not in seen:
+                if ("triangle", half) not in seen:
                     k = int(np.argmax(np.where(np.isfinite(obs), np.abs(obs - want), np.inf)))
                     viol.append(core.violation(
-                        dict(tags, what="triangle"),
-                        "filter %d width %d bin %d: response%s %r, documented triangle %r (vertices %r)" % (
-                            i, w, k, "" if b["name"] == "tri" else "^2", float(obs[k]), float(want[k]),
+                        dict(tags, what="triangle", **htag),
+                        "filter %d width %d half=%r bin %d: response%s %r, documented triangle %r (vertices %r)" % (
+                            i, w, half, k, "" if b["name"] == "tri" else "^2", float(obs[k]), float(want[k]),
                             (left, mid, right)), case))
-                seen.add("triangle")
-    return core.result(viol, evals=evals, nontrivial_count=nontriv, obs=(b["name"], analytic, sorted(seen)),
-                       sample=dict(bank=b, widths=list(TRI_WIDTHS)))
+                seen.add(("triangle", half))
+    return core.result(viol, evals=evals, nontrivial_count=nontriv, obs=(b["name"], analytic, sorted(map(str, seen))),
+                       sample=dict(bank=b, widths=list(TRI_WIDTHS), half=[False, True]))
 
 
 # ---------------------------------------------------------------- response (gain, crossings, ERB, L2)
@@ -519,6 +646,7 @@ def limited_call(fn, *args):
 
 
 @quiet
+@with_threshold
 def _response(pt, cap, bank=None):
     b = pt
     if bank is None:
@@ -650,6 +778,150 @@ def _response(pt, cap, bank=None):
     return core.result(viol, evals=evals, nontrivial_count=nontriv,
                        obs=(kind, l2, erb, sorted(notes), sorted(map(str, seen))),
                        sample=dict(bank=b, in_domain_filters=nontriv))
+
+
+# ---------------------------------------------------------------- response on the DFT grid: half x width parity
+
+
+GRID_WIDTHS = (96, 256)
+
+
+def aligned_width(f_hz, rate, parity, lo=GRID_WIDTHS[0], hi=GRID_WIDTHS[1]):
+    """DFT width of the given parity in [lo, hi] whose grid has a bin closest (in Hz) to f_hz -> (w, bin)"""
+    best = None
+    for w in range(lo, hi + 1):
+        if w % 2 != parity:
+            continue
+        k = int(round(f_hz * w / rate))
+        d = abs(f_hz - k * rate / w)
+        if best is None or d < best[0] - 1e-12:
+            best = (d, w, k)
+    return best[1], best[2]
+
+
+@quiet
+@with_threshold
+def _grid(b):
+    """Gabor / gammatone: gain 1 at the centre, peak at the centre and the 3 dB crossings at the band edges,
+    measured ON get_frequency_response for every combination of half in {False, True} and the parity of the
+    DFT width: per (filter, parity) one width whose grid contains the centre (to a small fraction of the
+    half bandwidth) and one per band edge.  Between a frequency and its nearest bin (distance d) the
+    documented response can change by at most (d / halfbw)^2 at the centre and, at a band edge, |H|^2 by
+    less than d / halfbw (Gaussian: ln 2 * d / halfbw; gammatone of any order: at most that)."""
+    r = build(b)
+    if r[0] != "ok":
+        return unconstructible(r)
+    bank = r[1]
+    kind = b["name"]
+    tags = bank_tags(b)
+    rate = float(b["sampling_rate"])
+    lay = ref_layout(b)
+    tol = 4 * eps()
+    l2 = bool(b.get("scale_l2_norm", False))
+    erb = bool(b.get("erb", False))
+    viol, seen, notes = [], set(), set()
+    evals = nontriv = 0
+
+    def bad(what, detail, i, half, w):
+        more = dict(route="frequency_grid", half=bool(half), width_odd=bool(w % 2))
+        key = (what,) + tuple(sorted(more.items()))
+        if key not in seen:
+            viol.append(core.violation(dict(tags, what=what, **more), detail, dict(bank=b, filt=i)))
+        seen.add(key)
+
+    if bank.num_filts != b["num_filts"]:
+        return core.result([], nontrivial=False, obs="num_filts")
+    cen = [float(x) for x in bank.centers_hz]
+    if any(not abs(cen[i] - lay["centers"][i]) <= 1e-9 * max(1.0, abs(lay["centers"][i]))
+           for i in range(bank.num_filts)):
+        return core.result([], nontrivial=False, obs="layout_differs", evals=bank.num_filts, nontrivial_count=0)
+
+    def get(i, w, half):
+        rr = limited_call(bank.get_frequency_response, i, w, half)
+        if rr[0] == "slow":
+            notes.add("abandoned_slow_call")
+            return None
+        if rr[0] != "ok":
+            bad("exception", "get_frequency_response(%d, %d, half=%r) raised %s: %s" % (i, w, half, rr[1], rr[2]),
+                i, half, w)
+            return None
+        fr = np.abs(np.asarray(rr[1]))
+        if fr.shape != ((w // 2 + 1 if half else w),) or not np.all(np.isfinite(fr)):
+            notes.add("shape_or_nonfinite")     # C06's business
+            return None
+        return fr
+
+    for i in range(bank.num_filts):
+        lo, hi = lay["edges"][i]
+        c = lay["centers"][i]
+        if not documented_span(b, lay, i) < rate / 2:
+            notes.add("out_of_domain")
+            continue
+        halfbw = (hi - lo) / 2
+        for parity in (0, 1):
+            for half in (False, True):
+                evals += 1
+                measured = False
+                # ---- centre
+                w, k = aligned_width(c, rate, parity)
+                fr = get(i, w, half)
+                if fr is not None and k < len(fr):
+                    km = int(np.argmax(fr))
+                    dist = abs(km - k) if half else min((km - k) % w, (k - km) % w)
+                    if dist > 1:
+                        bad("peak", "filter %d width %d half=%r: |response| peaks at bin %d (%.6g Hz, value %.6g), "
+                            "centre %.6g Hz is bin %d (value %.6g)" % (i, w, half, km, km * rate / w, fr[km], c, k,
+                                                                      fr[k]), i, half, w)
+                    allow = (abs(c - k * rate / w) / halfbw) ** 2
+                    if not l2 and allow <= 0.01:
+                        measured = True
+                        if not abs(fr[k] - 1.0) <= tol + allow:
+                            bad("gain", "filter %d width %d half=%r: |response| at the centre bin %d (%.6g Hz) is "
+                                "%.6g, documented gain 1" % (i, w, half, k, c, fr[k]), i, half, w)
+                        if not fr[km] <= 1.0 + tol:
+                            bad("gain", "filter %d width %d half=%r: max |response| %.6g exceeds 1" % (
+                                i, w, half, fr[km]), i, half, w)
+                # ---- band edges (3 dB points; with unit gain at the centre |H|^2 there is 0.5 .. 0.5012)
+                if not l2 and not erb:
+                    for name, f in (("low", lo), ("high", hi)):
+                        if not 0 <= f <= rate / 2:
+                            continue
+                        w, k = aligned_width(f, rate, parity)
+                        allow = abs(f - k * rate / w) / halfbw
+                        if allow > 0.02:
+                            notes.add("edge_off_grid")
+                            continue
+                        fr = get(i, w, half)
+                        if fr is None or not k < len(fr):
+                            continue
+                        measured = True
+                        p = float(fr[k]) ** 2
+                        if not (0.5 - tol - allow <= p <= 10 ** -0.3 + tol + allow):
+                            bad("crossing", "filter %d width %d half=%r: |response|^2 at bin %d (%.6g Hz; %s band edge "
+                                "%.6g Hz) is %.5f, documented 3 dB point (0.5 .. 0.5012)" % (
+                                    i, w, half, k, k * rate / w, name, f, p), i, half, w)
+                if measured:
+                    nontriv += 1
+    return core.result(viol, evals=evals, nontrivial_count=nontriv,
+                       obs=(kind, l2, erb, sorted(notes), sorted(map(str, seen))),
+                       sample=dict(bank=b, measured=nontriv))
+
+
+def grid_lattice(tier):
+    nfs = (3, 5, 11) if tier == "thorough" else (3, 11)
+    orders = (1, 2, 4, 6) if tier == "thorough" else (2, 4)
+    # the expensive banks first (the chunks are handed out in order)
+    out = bank_lattice(("gabor", "gammatone"), (40,), (16000,), orders=orders, scales=("mel",))
+    out += bank_lattice(("gabor", "gammatone"), nfs, RATES, orders=orders)
+    return out
+
+
+def threshold_lattice(tier):
+    """banks built with a lowered / raised EFFECTIVE_SUPPORT_THRESHOLD in force (layout, response, grid)"""
+    nfs = (3, 11) if tier == "thorough" else (11,)
+    out = bank_lattice(("gabor", "gammatone"), nfs, (8000, 16000), orders=(2, 4), scales=("mel", "linear"))
+    out += bank_lattice(("tri", "fbank"), nfs, (8000, 16000), scales=("mel",))
+    return thresholded(out)
 
 
 # ---------------------------------------------------------------- rejection lattice
@@ -1103,11 +1375,14 @@ def subchecks(tier, seed):
     design = tier_lattice(tier)
     odd = odd_lattice(tier)
     param = param_lattice(tier)
-    banks = design + odd + param
+    thr = threshold_lattice(tier)
+    banks = design + odd + param + thr
+    grid_banks = [b for b in thr if b["name"] in ("gabor", "gammatone")] + grid_lattice(tier)
     # gain / crossings / ERB are measured per filter (expensive): the boundary part takes part with its
     # compactly supported classes, whose route is cheap; its layout is checked for all four classes
     resp_banks = design + [b for b in odd if b["name"] in ("tri", "fbank")]
     resp_banks += [b for b in param_response_lattice(tier) if b not in design]
+    resp_banks += thr
     if tier == "quick":
         # the narrow filters of large banks are what lies inside the "< rate/2" domain for low orders
         # (the thorough lattice contains them anyway)
@@ -1129,7 +1404,10 @@ def subchecks(tier, seed):
                 left_open="%d configurations (Fbank / Gabor / gammatone at odd or fractional rates with high_hz "
                           "None or in (floor(rate/2), rate/2]) are not enumerated: the property does not say "
                           "what their top edge is or that they are accepted" % left_open,
-                flags="analytic | erb x scale_l2_norm (x order {1,2,4,6} x max_centered)")
+                flags="analytic | erb x scale_l2_norm (x order {1,2,4,6} x max_centered)",
+                threshold="EFFECTIVE_SUPPORT_THRESHOLD in force when the bank is built: the default, and %r for "
+                          "%d banks (mel / linear, 8 / 16 kHz, every range and flag combination, gammatone orders "
+                          "2 and 4); every tolerance is taken from the value in force" % (THRESHOLDS, len(thr)))
     hist_banks = history_banks(tier)
     hist_alpha = 3 * 2 * len(HISTORY_WIDTHS)
     return [
@@ -1149,7 +1427,8 @@ def subchecks(tier, seed):
             axes=dict(axes, banks=len(banks), batch=BATCH["layout"]), replay=batch_replay(_layout), chunk=1),
         core.SubCheck(
             "triangle", batches(tri_banks, BATCH["triangle"]), batch_fn(_triangle),
-            "(points = batches of consecutive banks) triangular / Fbank banks x every filter x widths %r: every DFT bin equals the documented "
+            "(points = batches of consecutive banks) triangular / Fbank banks x every filter x widths %r x half in {False, True} "
+            "(half=True: the leading width//2 + 1 bins): every DFT bin equals the documented "
             "triangle (Fbank: squared response vs triangle in mel), atol 1e-12; non-trivial = the "
             "triangle has a non-zero bin" % (TRI_WIDTHS,),
             axes=dict(axes, width=list(TRI_WIDTHS), banks=len(tri_banks), batch=BATCH["triangle"]),
@@ -1166,6 +1445,20 @@ def subchecks(tier, seed):
                                        "%r x (low, high) x flags; quick: num_filts {3, 11}, gammatone orders "
                                        "{2, 4}" % (RATES,)),
             replay=batch_replay(lambda b: _response(b, cap)), chunk=1),
+        core.SubCheck(
+            "response_grid", grid_banks, _grid,
+            "Gabor / gammatone banks (4 scales x num_filts x rates %r x ranges x flags; 40 filters at 16 kHz; the "
+            "banks built under a lowered / raised threshold) x every filter whose documented support spans < "
+            "rate/2 x half in {False, True} x DFT width {even, odd}: measured ON get_frequency_response at a "
+            "width in %r of that parity whose grid contains the centre (resp. the band edge) to within 0.1 (0.02) "
+            "of the half bandwidth: gain 1 +- 4 eps at the centre bin, peak within one bin of it, |response|^2 in "
+            "[0.5 - 4 eps, 10^-0.3 + 4 eps] at both band edges (erb=False, no L2 scaling). evaluations = (filter, "
+            "parity, half) triples; non-trivial = a gain or a crossing was measured" % (RATES, GRID_WIDTHS),
+            axes=dict(bank=["GaborFilterBank", "ComplexGammatoneFilterBank"], half=[False, True],
+                      width_parity=["even", "odd"], num_filts=sorted(set(b["num_filts"] for b in grid_banks)),
+                      rate=sorted(set(b["sampling_rate"] for b in grid_banks)), scale=list(SCALES),
+                      threshold=["default"] + list(THRESHOLDS)),
+            replay=_replay_bank(_grid), chunk=4),
         core.SubCheck(
             "construction_histories", [(tier, i) for i in range(len(construction_alphabet(tier)))],
             lambda pt: _construction_histories(pt, cap),
